@@ -359,7 +359,7 @@ pub fn run_history(rng: &mut Rng, rep: &mut Report) {
 }
 
 pub fn run(cfg: &RunCfg) -> Report {
-    let cases = cfg.cases(20_000, 400_000);
+    let cases = cfg.cases(20_000, 3_000_000);
     let mut rep = run_cases(cfg, 0, cases, Duration::from_secs(3600), |_c, rng, rep| run_history(rng, rep));
     rep.merge(crate::sim::c06_shell::run(cfg));
     rep
